@@ -443,7 +443,7 @@ pub fn run(args: &[String]) -> i32 {
     let mut rounds = 0;
     while first < total {
         rounds += 1;
-        let batch = run_batch(&dir.join("batch"), &t, seed, tier, first, total, total_random, jobs, sweep_stride);
+        let batch = run_batch(&dir.join("runA"), &t, seed, tier, first, total, total_random, jobs, sweep_stride);
         hung.extend(batch.hung.iter().copied());
         let cutoff = batch.fails.first().map(|c| c.i);
         for l in batch.lines {
@@ -496,7 +496,7 @@ pub fn run(args: &[String]) -> i32 {
     let mut det = json!({"checked": 0, "mismatches": 0});
     if violations.is_empty() && !all_lines.is_empty() {
         let n = (total_random).min(if tier == 0 { 300 } else { 1500 });
-        let again = run_batch(&dir.join("det"), &t, seed, tier, 0, n, total_random, 3.min(jobs), sweep_stride);
+        let again = run_batch(&dir.join("runB"), &t, seed, tier, 0, n, total_random, 3.min(jobs), sweep_stride);
         let by_i: HashMap<u64, &RunLine> = all_lines.iter().map(|l| (l.i, l)).collect();
         let (mut mism, mut checked) = (0, 0);
         for l in &again.lines {
@@ -698,7 +698,7 @@ pub fn selftest(args: &[String]) -> i32 {
     let dir = scratch_dir("selftest");
     let mut maps: Vec<HashMap<u64, String>> = Vec::new();
     for jobs in [4u64, 16, 7] {
-        let b = run_batch(&dir.join(format!("j{jobs}")), &t, seed, tier, 0, n, n, jobs, 1);
+        let b = run_batch(&dir.join(format!("j{jobs:03}")), &t, seed, tier, 0, n, n, jobs, 1);
         maps.push(b.lines.iter().map(|l| (l.i, format!("{}/{}", l.strict.digest, l.inject.as_ref().map(|p| p.digest.clone()).unwrap_or_default()))).collect());
     }
     let _ = std::fs::remove_dir_all(&dir);
